@@ -75,6 +75,42 @@ needs={
  'C17-E':'didOpen + unsaved change of the binding relation (or layout), evaluation, didClose, then a request',
  'C18-D':'two modules using the same qualifier name, rename of the qualifier in one',
  'C18-E':'prepareRename with the cursor on the qualifier part of a qualified use',
+ 'C01-F':'as C05-B (callee scope pushed before the arguments are evaluated)',
+ 'C01-G':'an `@` reference of URI kind that mentions itself in URI position (accepted as a point of recursion, then `not a uri: Recursion`)',
+ 'C02-F':'one transfer with two ranges of the same status (or both without status) and different media types',
+ 'C02-G':'as C05-B',
+ 'C03-F':'two resources with the same path pattern whose path variable differs in a detail',
+ 'C03-G':'two resources whose paths differ only by a trailing slash, same method, no explicit operationId',
+ 'C04-F':'as C01-D, reached from text',
+ 'C04-G':'a property nested directly in a property that mentions the declaration (`let a = \'p \'q a;`)',
+ 'C05-F':'a rec directly inside a rec, inside a function applied twice',
+ 'C05-G':'an argument carrying schema-level annotations and an annotated use of the parameter',
+ 'C06-F':'one operation with the same status under two media types',
+ 'C06-G':'two unqualified imports whose modules declare the same name, the name used',
+ 'C07-F':'an infinite kind whose closing equation has on its left a variable seen only nested (`let g = f; let f x = g;`)',
+ 'C07-G':'an object literal with a bare parameter member in a function that is never applied in its module',
+ 'C08-F':'a qualified use `m.x` inside a function or rec whose binder is spelled `x`',
+ 'C08-G':'the same `@name` in two modules, one declaration using the other in its right-hand side',
+ 'C09-F':'a function with a rec applied from inside two different @ / recursive declarations',
+ 'C09-G':'a recursive schema reachable only through a header object',
+ 'C10-F':'a module file name with a blank or a non-ASCII letter, on the real file system',
+ 'C10-G':'language server: an imported file deleted on disk after a successful load, then any change',
+ 'C11-F':'a property list ending in a trailing comma',
+ 'C11-G':'a lexical error directly after a token and before another one',
+ 'C12-F':'contents with a meta list and no body nested through a meta value (`<headers=<headers=...>>`)',
+ 'C12-G':'one long statement (wide object or deep nesting of hundreds of levels)',
+ 'C13-F':'language server: a program whose load fails, then corrected by didChange',
+ 'C13-G':'a base that cannot be read and an existing target',
+ 'C14-F':'a configuration file naming one base and `--base` naming another',
+ 'C14-G':'a base whose components hold links, callbacks or extensions',
+ 'C15-F':'a published error, then an edit before it that keeps byte offsets but moves UTF-16 columns',
+ 'C15-G':'a folder that loads but has a diagnostic, then an event on a document outside its module set',
+ 'C16-F':'as C15-D (one didChange with two ranged changes in document order)',
+ 'C16-G':'go-to-definition into another module whose text differs before the declaration',
+ 'C17-F':'as C15-D',
+ 'C17-G':'find-references with the cursor on the binding identifier of a parameter or rec binder',
+ 'C18-F':'two modules with unrelated definitions at the same node index, one used in a third module',
+ 'C18-G':'a rec binder shadowing a parameter of the same name, rename at a use of the inner one',
 }
 rows=[]
 for d in sorted(glob.glob('seeded/*/')):
@@ -86,7 +122,7 @@ for d in sorted(glob.glob('seeded/*/')):
     m['needs_to_manifest']=needs.get(n,m.get('needs_to_manifest'))
     json.dump(m,open(d+'meta.json','w'),indent=1)
     sig=(det.get('first_signature') or '')[:70].replace('|','\\|')
-    rows.append(f"| {n} | `{', '.join(f.replace('oal-','').replace('/src/','/') for f in files)}` | {needs.get(n,'')} | {n[:3]} quick: `{sig}` ({det.get('seconds')} s){' — after strengthening' if m.get('first_missed') else ''} |")
+    rows.append(f"| {n} | `{', '.join(f.replace('oal-','').replace('/src/','/') for f in files)}` | {needs.get(n,'')} | {(n[:3] + ' quick: `' + sig + '` (' + str(det.get('seconds')) + ' s)') if det.get('detected') else ('not by ' + n[:3] + ' quick')}{' — after strengthening' if m.get('first_missed') else ''}{(' — by ' + m['detected_by_other']) if m.get('detected_by_other') else ''} |")
 table='\n'.join(rows)
 new=open('tools/design11_body.md').read().replace('@@TABLE@@',table)
 marker='\n---------------------------------------------------------------------------------------\n\n## Appendix A.'
